@@ -103,6 +103,11 @@ def _eligible(fn, is_method):
     a = fn.args
     if a.vararg or a.kwarg or a.posonlyargs:
         return False
+    # a mutable default is ONE object shared by all calls: substituting the default expression at each call site would change that
+    for d in list(a.defaults) + [x for x in a.kw_defaults if x is not None]:
+        if not (isinstance(d, ast.Constant) or (isinstance(d, ast.UnaryOp) and isinstance(d.operand, ast.Constant)) or
+                isinstance(d, (ast.Name, ast.Attribute)) or (isinstance(d, ast.Tuple) and all(isinstance(e, ast.Constant) for e in d.elts))):
+            return False
     for n in ast.walk(fn):
         if isinstance(n, (ast.Yield, ast.YieldFrom, ast.Await, ast.Global, ast.Nonlocal, ast.AsyncFunctionDef, ast.ClassDef, ast.Try)):
             return False
